@@ -55,7 +55,7 @@ func genC13(cfg Config, ws *WorldSet, i, nctx int) C13Case {
 	c := C13Case{World: world}
 	for j := 0; j < nctx; j++ {
 		x := C13Ctx{Dims: map[string]string{}}
-		form := sim.Pick(r, []string{"rel-pkgdir", "dot-rel-pkgdir", "rel-modroot", "dotdot", "abs", "abs-modroot", "gofile", "gofile-overridden"})
+		form := sim.Pick(r, []string{"rel-pkgdir", "dot-rel-pkgdir", "rel-modroot", "dotdot", "abs", "abs-modroot", "gofile", "gofile-overridden", "symlink-pkgdir"})
 		if j == 0 {
 			form = "rel-pkgdir"
 		}
@@ -134,7 +134,9 @@ func genC13(cfg Config, ws *WorldSet, i, nctx int) C13Case {
 
 func normDiag(stderr []byte, root string, iv *Invocation, setupAbs string) string {
 	s := sim.Unsubst(string(stderr), root)
+	s = strings.ReplaceAll(s, "{W}/modlink/", "{W}/mod/") // the symlinked spelling of the module root
 	s = strings.ReplaceAll(s, setupAbs, "<IN>")
+	s = strings.ReplaceAll(s, strings.Replace(iv.OutPath, "{W}/modlink/", "{W}/mod/", 1), "<OUT>")
 	s = strings.ReplaceAll(s, iv.OutPath, "<OUT>")
 	lit := iv.Input
 	if lit == "" {
@@ -186,6 +188,7 @@ func execC13(env *sim.Env, c C13Case) CaseResult {
 	}
 	defer env.DropWorldDir(root)
 	setupAbs := "{W}/" + c.World.Setup
+	ExecSteps(env, root, []Step{{Op: "symlink", Path: "{W}/modlink", Data: []byte("{W}/mod")}}, nil)
 	reps := c.Reps
 	if reps < 1 {
 		reps = 1
